@@ -32,6 +32,17 @@ Definition is_stop_name (name : string) : bool := (name =? "SoftStop") || (name 
 Definition in_table (name : string) : bool :=
   existsb (fun a => String.eqb (a_name a) name) arms_table.
 
+Definition plain_paths (ps : list path) : bool :=
+  match ps with [] => true | [(0, false)] => true | _ => false end.
+
+(** no arm of read_channel / notify / notify_proxys handles the variant, no proxy is a destination *)
+Definition unserved (name : string) : bool :=
+  negb ((name =? "SoftStop") || (name =? "HardStop")) &&
+  match s0 (row_of name) with None => true | Some _ => false end &&
+  plain_paths (s1 (row_of name)) && plain_paths (s2 (row_of name)) &&
+  Nat.eqb (dests (row_of name)) 0 &&
+  match s4 (row_of name) with None => true | Some _ => false end.
+
 Definition none_row_ : arm_row := mkRow "None" None [(0, false)] [(0, false)] 0 None.
 
 Definition table_ok : bool :=
@@ -194,11 +205,38 @@ Section proofs2.
       destruct (notify_counts view payload dispatch _ _ _ _ _ _ _ E0 En) as [Hc|[_ [-> [-> ->]]]].
       + unfold is_stop_name in Hc. rewrite Hs1, Hs2 in Hc. cbn [orb] in Hc. unfold check in Hc.
         apply Nat.eqb_eq in Hc. unfold emit. rewrite Hstop.
-        destruct a as [|[|a]]; destruct agg; destruct b as [|[|b]]; try lia; cbn [answers app].
-        * destruct (o_fail o 0); eexists; split; try reflexivity; discriminate.
-        * destruct (o_fail o 1); eexists; split; try reflexivity; discriminate.
-        * destruct (o_fail o 0); eexists; split; try reflexivity; discriminate.
-      + unfold emit. cbn [answers app]. destruct (o_fail o 0); eexists; split; try reflexivity; discriminate.
+        destruct a as [|[|a]]; destruct agg; destruct b as [|[|b]]; try lia;
+          match goal with |- context [if ?c then refusals _ _ else _] => destruct c end;
+          cbn [answers app refusals map seq];
+          try (destruct (o_fail o 0)); try (destruct (o_fail o 1)); eexists; split; try reflexivity; discriminate.
+      + unfold emit. match goal with |- context [if ?c then refusals _ _ else _] => destruct c end;
+          cbn [answers app refusals map seq]; destruct (o_fail o 0); eexists; split; try reflexivity; discriminate.
+  Qed.
+
+  Lemma pick_plain : forall i ps, plain_paths ps = true -> pick i ps = (0, false).
+  Proof.
+    intros i ps H. unfold pick. destruct ps as [|[[|n] []] [|q ps]]; try discriminate H.
+    - destruct i; reflexivity.
+    - destruct i as [|[|i]]; reflexivity.
+  Qed.
+
+  (** a request nothing handles: one answer, the fallback's refusal *)
+  Lemma handle_unserved : forall (w : worker) (r : request) o w' out,
+      w_alive w = true -> unserved (r_name r) = true ->
+      handle dispatch w r o = (w', out) -> out = [mkResp (r_id r) SFailure].
+  Proof.
+    intros w r o w' out Ha Hu H. unfold unserved in Hu.
+    repeat (apply andb_true_iff in Hu; let X := fresh "U" in destruct Hu as [Hu X]).
+    unfold handle in H. rewrite Ha in H. cbn [negb] in H.
+    destruct (s0 (row_of (r_name r))) eqn:E0; [discriminate|].
+    apply negb_true_iff in Hu. unfold is_stop_name in Hu. apply orb_false_iff in Hu. destruct Hu as [Hs1 Hs2].
+    rewrite Hs2, Hs1 in H. unfold notify in H.
+    rewrite (pick_plain _ _ U2), (pick_plain _ _ U1) in H.
+    destruct (s4 (row_of (r_name r))) eqn:E4; [discriminate|].
+    apply Nat.eqb_eq in U0. rewrite U0 in H.
+    assert (G1 : fallback_answers = true) by reflexivity. assert (G2 : fallback_refuses = true) by reflexivity.
+    rewrite G1 in H. cbn in H. inversion H; subst; clear H.
+    unfold emit, is_fallback. rewrite ?E4, ?G1, ?G2. cbn. reflexivity.
   Qed.
 
   Lemma handle_soft : forall (w : worker) (r : request) o w' out,
